@@ -128,7 +128,21 @@ func c03RunChunks(w coraza.WAF, uri string, headers [][2]string, ct string, body
 		var it *types.Interruption
 		it = tx.ProcessRequestHeaders()
 		if it == nil && body != nil {
-			if first > 0 && first < len(body) {
+			if first == -1 {
+				// pieces of 3, 2, 1 bytes and the rest: with an in-memory limit of 4 the first fits and leaves room,
+				// the second forces the spill to disk, the third would fit into the room that was left
+				rest := body
+				for _, k := range []int{3, 2, 1, len(body)} {
+					if k > len(rest) {
+						k = len(rest)
+					}
+					if k == 0 || it != nil {
+						break
+					}
+					it, _, _ = tx.WriteRequestBody(rest[:k])
+					rest = rest[k:]
+				}
+			} else if first > 0 && first < len(body) {
 				it, _, _ = tx.WriteRequestBody(body[:first])
 				if it == nil {
 					it, _, _ = tx.WriteRequestBody(body[first:])
@@ -237,6 +251,12 @@ func C03(run *vf.Run) {
 		return
 	}
 	defer closeAny(wXML)
+	wSpill, err := coraza.NewWAF(coraza.NewWAFConfig().WithDirectives(c03Rules + "SecRequestBodyInMemoryLimit 4\n"))
+	if err != nil {
+		run.Inconclusive("NewWAF: %v", err)
+		return
+	}
+	defer closeAny(wSpill)
 	wBodyRej, err := coraza.NewWAF(coraza.NewWAFConfig().WithDirectives(c03Rules + "SecRequestBodyLimit 8\nSecRequestBodyInMemoryLimit 8\nSecRequestBodyLimitAction Reject\n"))
 	if err != nil {
 		run.Inconclusive("C03 rules rejected: %v", err)
@@ -348,6 +368,16 @@ func C03(run *vf.Run) {
 					check(c, "urlencoded-body", got, 6, "ARGS_POST_NAMES", names)
 					check(c, "urlencoded-body", got, 11, "REQUEST_BODY", [][2]string{{"", string(c.Query)}})
 					check(c, "urlencoded-body", got, 1, "ARGS_GET", nil)
+				}
+				// the body arrives in small pieces around the moment it spills to disk: the same variables, the same bytes
+				if len(c.Query) >= 7 {
+					gotS, _, pS := c03RunChunks(wSpill, "/p", nil, "application/x-www-form-urlencoded", []byte(c.Query), -1)
+					if pS != "" {
+						report("panic", "urlencoded-body+pieces+spill", "-", c, pS)
+					} else {
+						check(c, "urlencoded-body+pieces+spill", gotS, 2, "ARGS_POST", kv)
+						check(c, "urlencoded-body+pieces+spill", gotS, 11, "REQUEST_BODY", [][2]string{{"", string(c.Query)}})
+					}
 				}
 				// the body arrives in two pieces, the first filling SecRequestBodyLimit exactly: reported, or all there
 				if len(c.Query) > 8 {
